@@ -1396,8 +1396,14 @@ class Stage:
                 subst_to.append(ret.t)
             else:
                 subst_to.append(MX.sym(k.name(), k.sparsity()))
+        def renew(e):
+            # Expressions kept by the stage may refer to the template's placeholders (notably t)
+            if isinstance(e, MX):
+                return substitute([e], subst_from, subst_to)[0]
+            return e
         for k_old, k_new in zip(subst_from, subst_to):
-            ret._placeholders[k_new] = self._placeholders[k_old]
+            species, expr, p_args, p_kwargs = self._placeholders[k_old]
+            ret._placeholders[k_new] = (species, renew(expr), p_args, p_kwargs)
 
         ret.states = copy(self.states)
         ret.controls = copy(self.controls)
@@ -1408,9 +1414,13 @@ class Stage:
         ret._offsets = deepcopy(self._offsets)
         ret._param_vals = copy(self._param_vals)
         ret._state_der = copy(self._state_der)
+        for k, v in self._state_der.items():
+            ret._state_der[k] = renew(v)
         ret._scale_der = copy(self._scale_der)
-        ret._alg = copy(self._alg)
+        ret._alg = [renew(e) for e in self._alg]
         ret._state_next = copy(self._state_next)
+        for k, v in self._state_next.items():
+            ret._state_next[k] = renew(v)
         constr_types = self._constraints.keys()
         orig = []
         for k in constr_types:
